@@ -92,6 +92,61 @@ class GenValue:
         return implies(not (is_int(val) or is_float(val)), same(result, val._name))
 
     def ensures_int(val, result):
-        return implies(is_int(val), result == str(val))
+        return implies(is_int(val), is_str(result) and result == str(val))
+
+    def ensures_float(val, result):
+        """a float is printed exactly as Python's str() prints it (the shape the NUMBER lemma is about: shortest
+        round-tripping repr, exponent form included) - no reformatting"""
+        return implies(is_float(val), is_str(result) and result == str(val))
+
+    raises_only = ()
+
+
+from jaqalpaq.core.block import BlockStatement
+from jaqalpaq.core.constant import Constant
+from jaqalpaq.core.parameter import Parameter, ParamType
+
+
+@assumed("generator.generator:generate_jaqal_block_statements", props=["C01", "C20"])
+class GenBlockStatementsAssumed:
+    """Assumed: the text of the statements of a block is some string (its content is what the bounded round trip
+    exercises); it raises nothing."""
+
+    def ensures(block, depth, result):
+        return is_str(result)
+
+    raises_only = ()
+
+
+@contract("generator.generator:generate_jaqal_block", props=["C01", "C20"])
+class GenBlock:
+    """the opening of a block as text: a subcircuit block is announced by the keyword, followed by its count exactly
+    when the count is not the literal 1 (a count of 0, a let-valued count and a count that merely equals 1 as a let
+    are all printed), then the bracket of the block's kind - so blocks that differ in annotation, count or kind
+    print differently (C20) and the annotation survives the round trip (C01)"""
+
+    def requires(statement, depth, indent_first_line):
+        return (type_is(statement, BlockStatement) and is_bool(statement._parallel) and is_bool(statement._subcircuit)
+                and (is_int(statement._iterations)
+                     or (type_is(statement._iterations, Constant) and is_str(statement._iterations._name) and isinstance(statement._iterations._kind, ParamType)
+                         and (is_int(statement._iterations._value) or is_float(statement._iterations._value)))
+                     or (type_is(statement._iterations, Parameter) and is_str(statement._iterations._name) and isinstance(statement._iterations._kind, ParamType)))
+                and is_int(depth) and depth >= 0 and is_bool(indent_first_line))
+
+    def ensures_plain(statement, depth, indent_first_line, result):
+        return implies(not statement._subcircuit and not indent_first_line,
+                       is_str(result) and result.startswith("<\n" if statement._parallel else "{\n"))
+
+    def ensures_subcircuit_one(statement, depth, indent_first_line, result):
+        return implies(statement._subcircuit and not indent_first_line and same(statement._iterations, 1),
+                       is_str(result) and result.startswith("subcircuit <\n" if statement._parallel else "subcircuit {\n"))
+
+    def ensures_subcircuit_count(statement, depth, indent_first_line, result):
+        return implies(statement._subcircuit and not indent_first_line and is_int(statement._iterations) and statement._iterations != 1,
+                       is_str(result) and result.startswith("subcircuit " + str(statement._iterations) + " "))
+
+    def ensures_subcircuit_let(statement, depth, indent_first_line, result):
+        return implies(statement._subcircuit and not indent_first_line and isinstance(statement._iterations, AnnotatedValue),
+                       is_str(result) and result.startswith("subcircuit " + statement._iterations._name + " "))
 
     raises_only = ()
